@@ -64,7 +64,10 @@ def parseIn (e : String) : Option InRef :=
 
 def parseOut (e : String) : Option Out :=
   match e.splitOn ":" with
-  | [addr, amt, fr] => match amt.toNat?, fr.toInt? with
+  | [addr, amt, fr] =>
+    -- `x<hex>`: the amount spelled byte by byte (leading zero bytes, zero as 0x00): the code reads amounts numerically
+    if amt.startsWith "x" then (fr.toInt?).map (fun f => ⟨addr, hexVal (amt.drop 1).toString, f⟩)
+    else match amt.toNat?, fr.toInt? with
     | some a, some f => some ⟨addr, a, f⟩
     | _, _ => none
   | _ => none
